@@ -28,9 +28,12 @@ fn case_variant(rng: &mut Rng, s: &str) -> String {
 fn parse_spec(text: &str) -> Option<Result<u64, ()>> {
   let digits: String = text.chars().take_while(|c| c.is_ascii_digit() || *c == '.').collect();
   let suffix: String = text.chars().skip_while(|c| c.is_ascii_digit() || *c == '.').collect();
-  // "every letter case": a spelling is a unit when lower-casing it gives the unit (so the Kelvin sign is a `k`, and a
-  // dotless i is not an `i`)
-  let mult = UNITS.iter().find(|(u, _)| *u == suffix.to_lowercase()).map(|(_, k)| *k);
+  // (letters outside ASCII whose case mappings land on a unit letter - the Kelvin sign, a dotless i - are not pinned:
+  // "any letter case" can be read either way for them; such inputs only must not crash)
+  if !suffix.is_ascii() {
+    return None;
+  }
+  let mult = UNITS.iter().find(|(u, _)| *u == suffix.to_ascii_lowercase()).map(|(_, k)| *k);
   let dots = digits.matches('.').count();
   let ndig = digits.chars().filter(|c| c.is_ascii_digit()).count();
   if dots > 1 || ndig == 0 || mult.is_none() {
